@@ -27,13 +27,14 @@ def _gt(*names):
 
 THEOREMS = {
     "C01": _gt("errEnum_eq", "rfcEnum_eq", "setup_eq", "limits_eq") + [("Eav.Props.C01", "Eav.Props.C01." + n) for n in
-            ("splitLast_iff", "email_iff", "always_rejected", "rc_nonpos_off", "setup_selects_mode", "eavIsEmail_spec", "localOf_nonpos")],
+            ("splitLast_iff", "email_iff", "always_rejected", "rc_nonpos_off", "setup_selects_mode", "eavIsEmail_spec", "localOf_nonpos",
+             "invalid_local_any_domain", "valid_local_domain_decides", "literal_branch_mode_free")],
     "C02": _gt("errEnum_eq", "specials_eq") + [("Eav.Props.C02", "Eav.Props.C02." + n) for n in
-            ("local_iff_5321", "local_iff_822", "local_iff_5322", "no_high_byte", "no_leading_dot")] +
+            ("local_iff_5321", "local_iff_822", "local_iff_5322", "no_high_byte", "no_leading_dot")] + [("Eav.Props.C01", "Eav.Props.C01.invalid_local_any_domain")] +
            [("Eav.Lemmas.LocalGrammar", "Eav.Spec.specLocal_iff"), ("Eav.Lemmas.LocalScan", "Eav.is5321Local_iff"),
             ("Eav.Lemmas.LocalScan", "Eav.is822Local_iff"), ("Eav.Lemmas.LocalScan", "Eav.is5322Local_iff")],
     "C03": _gt("errEnum_eq", "specials_eq", "buildOpts_eq") + [("Eav.Props.C03", "Eav.Props.C03." + n) for n in
-            ("utf8_iff", "local6531_iff", "invalid_utf8_rejected", "ascii_agrees_5321", "nonascii_between_dots")] +
+            ("utf8_iff", "local6531_iff", "invalid_utf8_rejected", "ascii_agrees_5321", "nonascii_between_dots")] + [("Eav.Props.C01", "Eav.Props.C01.invalid_local_any_domain")] +
            [("Eav.Lemmas.Utf8", "Eav.decodeNext_sound"), ("Eav.Lemmas.Utf8", "Eav.decodeNext_complete"), ("Eav.Lemmas.Utf8", "Eav.decAll_iff"),
             ("Eav.Lemmas.Local6531", "Eav.is6531Local_iff"), ("Eav.Lemmas.LocalGrammar", "Eav.Spec.specLocal_iff"),
             ("Eav.Lemmas.Local6531C", "Eav.is6531LocalC_eq")],
